@@ -2,13 +2,16 @@
 import json
 import subprocess
 
-from . import build, props
+from . import build, cprops, props
 from .build import Inconclusive
 
 
 def run(prop, tier, seed, groups=None):
     if prop in props.RUNTIME:
         return props.runtime_check(prop, tier, seed, groups=groups)
+    fn = getattr(cprops, "check_" + prop.lower(), None)
+    if fn is not None:
+        return fn(tier, seed)
     raise Inconclusive("no check registered for %s" % prop)
 
 
